@@ -99,19 +99,23 @@ func comparePoint(p lpPoint, rec *models.Record) string {
 
 func reencode(p *lpPoint) {
 	var sb strings.Builder
-	sb.WriteString(escName(p.M, ", "))
+	mset, kset := ", ", ",= "
+	if p.EscBS {
+		mset, kset = mset+"\\", kset+"\\"
+	}
+	sb.WriteString(escName(p.M, mset))
 	for _, t := range p.Tags {
 		sb.WriteByte(',')
-		sb.WriteString(escName(t[0], ",= "))
+		sb.WriteString(escName(t[0], kset))
 		sb.WriteByte('=')
-		sb.WriteString(escName(t[1], ",= "))
+		sb.WriteString(escName(t[1], kset))
 	}
 	sb.WriteByte(' ')
 	for i, f := range p.Fields {
 		if i > 0 {
 			sb.WriteByte(',')
 		}
-		sb.WriteString(escName(f.Key, ",= "))
+		sb.WriteString(escName(f.Key, kset))
 		sb.WriteByte('=')
 		if f.Kind == "string" {
 			sb.WriteString(`"` + escString(f.S) + `"`)
@@ -137,8 +141,8 @@ func parseOne(p lpPoint, precision string) string {
 	return comparePoint(p, rec)
 }
 
-func validName(s string) bool {
-	if s == "" || s != fixName(s) || strings.HasPrefix(s, "_") || strings.HasPrefix(s, "#") || s == "time" {
+func validName(s string, escBS bool) bool {
+	if s == "" || (!escBS && s != fixName(s)) || strings.HasPrefix(s, "_") || strings.HasPrefix(s, "#") || s == "time" {
 		return false
 	}
 	return true
@@ -148,18 +152,18 @@ func validName(s string) bool {
 // deleting characters, staying inside the generator's own validity rules.
 func shrink(p lpPoint, precision, kind string) lpPoint {
 	try := func(q lpPoint) bool {
-		if q.M == "" || q.M != fixName(q.M) || strings.HasPrefix(q.M, "#") || len(q.Fields) == 0 {
+		if q.M == "" || (!q.EscBS && q.M != fixName(q.M)) || strings.HasPrefix(q.M, "#") || len(q.Fields) == 0 {
 			return false
 		}
 		seen := map[string]bool{}
 		for _, t := range q.Tags {
-			if !validName(t[0]) || t[1] == "" || t[1] != fixName(t[1]) || seen[t[0]] {
+			if !validName(t[0], q.EscBS) || t[1] == "" || (!q.EscBS && t[1] != fixName(t[1])) || seen[t[0]] {
 				return false
 			}
 			seen[t[0]] = true
 		}
 		for _, f := range q.Fields {
-			if !validName(f.Key) || seen[f.Key] {
+			if !validName(f.Key, q.EscBS) || seen[f.Key] {
 				return false
 			}
 			seen[f.Key] = true
